@@ -398,6 +398,9 @@ def _enum_json(tname: str, rng: random.Random, n: int) -> List[Any]:
             for _ in range(n):
                 out.append(tuple(rng.choice([0, 1, 2]) for _ in range(ln)))
         return [{"t": "tuple", "v": list(x)} for x in dict.fromkeys(out)]
+    if t.startswith("Rec:"):
+        r = C.REG.records.get(t[4:])
+        return [{"t": "rec", "cls": t[4:], "fields": f} for f in (r.enum if r else [])]
     import re
     m = re.match(r"^(\w+)\[(.*)\]$", t)
     if m:
